@@ -307,6 +307,11 @@ def hdl21_naming_encoder(obj: Any) -> Any:
         zero = lambda v: 0.0 if isinstance(v, float) and v == 0 else v
         return {f.name: zero(getattr(obj, f.name)) for f in dataclasses.fields(obj)}
 
+    # Sets have no order of their own, and their iteration order varies between processes.
+    # Name them by their sorted, encoded elements.
+    if isinstance(obj, (set, frozenset)):
+        return sorted(json.dumps(v, default=hdl21_naming_encoder) for v in obj)
+
     # Not an Hdl21 type. Hand off to pydantic.
     return pydantic_json_encoder(obj)
 
